@@ -49,6 +49,9 @@ func BPlusTreeStore.GetRange.$1
   props C14
   requires istype(i, KVItem) && len(dyn(i, KVItem).Key) >= 1
   modifies nothing
+  // the scan (in key order, from prefix+start) only stops at a key ABOVE prefix+end, and takes every key before that
+  ensures C14/stops-only-above-the-end: !result ==> !lexle(bytes(dyn(i, KVItem).Key), bytes(endKey))
+  ensures C14/takes-every-key-up-to-the-end: result ==> len(local(result)) == old(len(local(result))) + 1
 
 func BPlusTreeStore.Get
   props C14
